@@ -68,9 +68,9 @@ structure Colour where
   k3 : Num
   deriving DecidableEq, Repr
 
-/-- `(color.space, *channels)`: Python compares the numbers by value. -/
-abbrev ColKey := String × Rat × Rat × Rat
-def Colour.key (c : Colour) : ColKey := (c.space, c.c1.val, c.c2.val, c.c3.val)
+/-- `(color.space, *channels)`: Python compares the numbers by value (`None` only equals `None`). -/
+abbrev ColKey := String × Option Rat × Option Rat × Option Rat
+def Colour.key (c : Colour) : ColKey := (c.space, c.c1.key, c.c2.key, c.c3.key)
 
 inductive SpaceClass where
   | rgb | labD65 | labD50 | other
